@@ -604,6 +604,8 @@ def alias_rule(ctx) -> None:
 
 
 def run(ctx) -> None:
+    # nothing is computed from a loop variable after its loop ran to completion (it would be the last element's value)
+    shared.r_staleloop(ctx, ctx.prog.functions([m for m in ctx.prog.modules if m.startswith(('forml.io.dsl', 'forml.provider.feed'))]))
     prog = ctx.prog
     tenv = types.TypeEnv(prog)
     registration(ctx)
